@@ -161,7 +161,7 @@ fn judge(out: &mut Out, label: &str, o: &Outcome, n_ops: usize, expect_driver_en
 }
 
 pub fn run(thorough: bool, mut rng: Rng, mut out: Out) {
-    let nbase = if thorough { 60 } else { 20 };
+    let nbase = if thorough { 240 } else { 20 };
     for bi in 0..nbase {
         let b = gen_base(&mut rng);
         let (_, total) = script_resp_cut(&b, 0, Fault::Eof, 0);
